@@ -897,6 +897,19 @@ pub fn t2_pairs(cfg: &Cfg) -> Vec<T> {
                 }
             }
         }
+        // three directly nested slices (a writer / rule that fuses slice chains meets its third level only here):
+        // every chain at widths <= 5, the boundary cuts above
+        if let Some(x) = syms.first() {
+            for (h1, l1) in slice_params(w) {
+                let w1 = h1 - l1 + 1;
+                for (h2, l2) in slice_params(w1) {
+                    let w2 = h2 - l2 + 1;
+                    for (h3, l3) in slice_params(w2) {
+                        out.push(T::Slice(h3, l3, Box::new(T::Slice(h2, l2, Box::new(T::Slice(h1, l1, Box::new(x.clone())))))));
+                    }
+                }
+            }
+        }
         // both operands built by the same operator over a common operand (a literal - every value at widths <= 4,
         // the full literal alphabet above - or a third symbol): cancellation / factoring rules look at exactly this
         if syms.len() >= 2 {
